@@ -1,7 +1,6 @@
-\* C19 emission (quick tier): every terminal behaviour for <= 3 versions, printed as CASE lines;
-\* the same run checks the invariants and termination under weak fairness (the liveness pass
-\* re-evaluates actions, so CASE lines repeat: the harness removes duplicates)
-SPECIFICATION FairSpec
+\* C19 emission (quick tier): every terminal behaviour for <= 3 versions, printed as CASE lines
+\* (the same run checks the invariants; termination: MC_UpdateFile_live.cfg)
+SPECIFICATION Spec
 CONSTANTS
   MaxN = 2
   Sizes = {0, 2}
@@ -12,5 +11,4 @@ CONSTANTS
   Emit = TRUE
 INVARIANTS TypeOK Converges NeverCorrupt NoTempLeft AlwaysOldOrNew FaultRaises IndexFaultConverges
            HashFaultWritesNothing GarbledNeverApplied ByPatchesWhenListed
-PROPERTY Terminates
 CHECK_DEADLOCK FALSE
